@@ -91,6 +91,11 @@ def call_builtin(eng, p, args, kwargs, fr, node):
                        else isinstance_of(eng, args[0], names[0], fr))
     if name == "int":
         x = args[0]
+        hook = eng.reg.spec.get("__int__")
+        if hook:
+            r = hook(eng, fr, x)
+            if r is not None:
+                return r
         if x.k in ("int", "bool"):
             return mk_int(eng.as_int(x, fr))
         if x.k == "real":
@@ -440,6 +445,12 @@ def call_method(eng, recv, meth, args, kwargs, fr, node):
             return recv
         if meth == "format" and eng.entails(st, T.is_VStr(v)):
             recv = mk_str(T.sval(v))
+        if recv.k == "V" and meth in ("split", "replace"):
+            hook = eng.reg.spec.get("__strmeth__")
+            if hook:
+                r = hook(eng, fr, recv, meth, args, node)
+                if r is not None:
+                    return r
     if recv.k == "str":
         if meth == "format":
             hook = eng.reg.spec.get("__format__")
